@@ -4,6 +4,7 @@ from __future__ import annotations
 
 import ast
 from typing import Dict, List, Optional, Set, Tuple
+import re
 
 from .core import AnalysisError, Ctx, rule
 from .pyast import Module, call_name, is_self_attr, pyfacts, unparse, walk_no_nested
@@ -277,6 +278,18 @@ def p5(ctx: Ctx):
                     ctx.ob(f"{m.rel}:{base}", False, f"call of `{base}` makes the result depend on something other than input and options", file=m.rel, line=n.lineno)
             if isinstance(n, ast.Attribute) and unparse(n) == "os.environ":
                 ctx.ob(f"{m.rel}:os.environ", False, "reads the process environment", file=m.rel, line=n.lineno)
+        # memoised functions that hand out objects: the same object is shared by later conversions
+        for fn in [x for x in ast.walk(m.tree) if isinstance(x, ast.FunctionDef)]:
+            decos = [unparse(d) for d in fn.decorator_list]
+            if any(re.search(r"\b(lru_cache|cache|cached_property)\b", d) for d in decos):
+                builds = any(isinstance(c, ast.Call) and isinstance(c.func, ast.Name) and c.func.id[:1].isupper() for c in ast.walk(fn))
+                ctx.ob(
+                    f"{m.rel}:{fn.name}:memoised",
+                    not builds,
+                    "" if not builds else f"`{fn.name}` is memoised ({', '.join(decos)}) and returns an object it builds: every later conversion in the process receives the same object, so whatever one conversion adds to it leaks into the next",
+                    file=m.rel,
+                    line=fn.lineno,
+                )
         # cross-call state: module-level mutable containers mutated inside functions / class-level containers
         mutable_globals = {k for k, v in m.assigns.items() if isinstance(v, (ast.List, ast.Dict, ast.Set)) or (isinstance(v, ast.Call) and call_name(v) in ("list", "dict", "set", "defaultdict", "OrderedDict"))}
         for fn in [x for x in ast.walk(m.tree) if isinstance(x, (ast.FunctionDef,))]:
